@@ -50,7 +50,7 @@ theorem CacheOk.of_eq {s s' : St} {H : List Packet} (h : CacheOk s H) (hs : s'.n
 /-! ## `_vbi_cache_put_page` -/
 
 /-- the stored sub-code is the page's or 0, in every key class -/
-theorem putKey_sub (pt pgno subno : Nat) : (putKey pt pgno subno).1 = subno ∨ (putKey pt pgno subno).1 = 0 := by
+theorem putKey_sub_or_zero (pt pgno subno : Nat) : (putKey pt pgno subno).1 = subno ∨ (putKey pt pgno subno).1 = 0 := by
   unfold putKey
   repeat' split
   all_goals first | exact Or.inl rfl | exact Or.inr rfl
@@ -63,7 +63,7 @@ theorem cachePutF_keys (fix : Bool) (c : List Page) (pt : Nat) (p : Page) :
   unfold cachePutF
   split
   · intro c' h; cases h
-  · have hk := putKey_sub pt p.pgno p.subno
+  · have hk := putKey_sub_or_zero pt p.pgno p.subno
     generalize putKey pt p.pgno p.subno = k at hk
     obtain ⟨a, b⟩ := k
     intro c' h
